@@ -1,5 +1,6 @@
 import Proofs.HeapRun
 import Proofs.CloneGenEq
+import Proofs.ModCloneGenEq
 
 /-!
 # C01 — a cloned agent is a faithful and fully independent copy of its parent
@@ -232,5 +233,152 @@ example : genRules [(⟨Kind.network, false⟩, false, false), (⟨Kind.optimize
 example : ¬ ByRefSpec ⟨Kind.tensor, false⟩ ∧ ByRefSpec ⟨Kind.other, true⟩ := by
   refine ⟨fun h => ?_, rfl, Or.inr (Or.inr (Or.inl rfl))⟩
   exact absurd h.1 (by decide)
+
+/-! ## `module.clone()` itself, read from the source (`Gen/ModCloneGen.lean`, harness/py2lean_modclone.py)
+
+  The theorems above take "`module.clone()` shares nothing" as an assumption of the agent-level translation
+  (`CloneGen.Val.shareWith (.moduleClone _) = .fresh`).  Below, `EvolvableModule.clone` / `get_init_dict` /
+  `EvolvableDistribution.clone` are translated themselves; a module is a list of attribute groups
+  (`modParts D`: parameter / buffer tensors, the recorded constructor arguments at nesting depths `0 … D-1`, the two
+  method-name lists) and the same heap theorems apply to the GENERATED module-level table. -/
+
+/-- **The module-level rule read from the source is the model's**, for every part and EVERY nesting depth of the
+    recorded constructor arguments, and every part of the clone holds the original's values. -/
+theorem C01_source_translation_modclone_rule (p : ModPart) :
+    (ModCloneGen.partRule (partOf p)).bind (fun x => modShareRule x.1) = some (moduleCloneRule p) ∧
+    (ModCloneGen.partRule (partOf p)).map (fun x => x.2) = some true :=
+  ⟨gen_moduleCloneRule_eq p, gen_moduleCloneFaithful_eq p⟩
+
+/-- **The assumption of the agent-level translation, discharged**: by the source of `EvolvableModule.clone`, EVERY
+    group of mutable objects of the clone — parameter / buffer tensors, the recorded constructor arguments at every
+    depth, the two method-name lists — is FRESH, which is what `CloneGen.Val.shareWith` assumes of `.moduleClone`. -/
+theorem C01_source_translation_modclone_shares_nothing (p : ModPart) :
+    (ModCloneGen.partRule (partOf p)).bind (fun x => modShareRule x.1) = some Rule.fresh ∧
+      ∀ el v, CloneGen.Val.shareWith el (CloneGen.Val.moduleClone v) = CloneGen.Share.fresh := by
+  rw [gen_moduleCloneRule_eq p, moduleCloneRule_fresh p]
+  exact ⟨rfl, fun _ _ => rfl⟩
+
+/-- `get_init_dict()` by the source: a NEW dict (depth 0) whose values are the module's own objects (every deeper
+    level is the original's) — so only a deep copy separates the clone's recorded architecture from the parent's. -/
+theorem C01_source_translation_modclone_init_dict (d : Nat) :
+    ModCloneGen.initShare d = (if d = 0 then ModCloneGen.Share.fresh else ModCloneGen.Share.parent) ∧
+    ModCloneGen.initDictProp = ModCloneGen.Val.getInitDict ModCloneGen.Who.self ∧
+    ModCloneGen.networkCloneSteps = none ∧ ModCloneGen.moduleDictCloneSteps = none :=
+  ⟨gen_initShare_eq d, rfl, rfl, rfl⟩
+
+/-- **(i) `module.clone()` shares no mutable cell with the original**: modules cloned (as the source does it) from
+    one another through any history of clone / in-place write / rebind / discard never share a parameter tensor or
+    a recorded-argument container at any nesting depth `k - 1 < D`. -/
+theorem C01_source_translation_modclone_separation (D : Nat) (rules : List Rule) (hg : genModuleRules D = some rules)
+    (w : World) (hw : Reachable rules w)
+    (i j : Nat) (ai aj : Agent) (k l : Nat) (ck cl : List Nat) (a : Nat)
+    (hi : w.agents[i]? = some (some ai)) (hj : w.agents[j]? = some (some aj))
+    (hk : ai[k]? = some ck) (hl : aj[l]? = some cl) (hak : a ∈ ck) (hal : a ∈ cl)
+    (hpriv : k ≤ D) : i = j := by
+  rw [gen_moduleRules_eq] at hg
+  cases hg
+  exact C01_separation_invariant _ w hw i j ai aj k l ck cl a hi hj hk hl hak hal (moduleRules_private D k)
+
+/-- … and the clone holds equal values, part by part, in cells allocated by this very clone -/
+theorem C01_source_translation_modclone_values (D : Nat) (rules : List Rule) (hg : genModuleRules D = some rules)
+    (w : World) (hw : Reachable rules w) (i : Nat) (p : Agent) (hp : w.agents[i]? = some (some p)) :
+    ∃ child, (w.clone i).agents = w.agents ++ [some child] ∧
+      ∀ (k : Nat) (cs' : List Nat), child[k]? = some cs' →
+        ∃ cs, p[k]? = some cs ∧ vals (w.clone i).heap cs' = vals w.heap cs ∧
+          (k ≤ D → ∀ a ∈ cs', w.heap.length ≤ a) := by
+  rw [gen_moduleRules_eq] at hg
+  cases hg
+  obtain ⟨child, hag, _, hch⟩ := C01_clone_values _ w hw i p hp
+  refine ⟨child, hag, fun k cs' hcs' => ?_⟩
+  obtain ⟨rule, cs, h1, h2, h3, h4⟩ := hch k cs' hcs'
+  have hsrc : srcOf p cs rule = cs := by
+    rw [moduleRules_getElem?] at h1
+    cases hq : (modParts D)[k]? with
+    | none => simp [hq] at h1
+    | some q =>
+      simp only [hq, Option.map_some, Option.some.injEq] at h1
+      subst h1
+      cases q <;> rfl
+  refine ⟨cs, h2, by rw [h3, hsrc], fun _ => h4 (fun hb => moduleRules_private D k (by rw [h1, hb]))⟩
+
+/-- **(ii) an in-place architecture mutation of the clone does not change the original**: a write through a
+    parameter tensor or through a recorded list / dict at any depth (`hidden_size[i] += k`,
+    `encoder_config["hidden_size"].append(n)`) of one module leaves every other module's view — its `init_dict`
+    at every level included — unchanged. -/
+theorem C01_source_translation_modclone_frame (D : Nat) (rules : List Rule) (hg : genModuleRules D = some rules)
+    (w w' : World) (hw : Reachable rules w) (i k c v : Nat)
+    (hwrite : w.write i k c v = some w') (hpriv : k ≤ D)
+    (j : Nat) (hij : j ≠ i) : view w' j = view w j := by
+  rw [gen_moduleRules_eq] at hg
+  cases hg
+  exact C01_frame _ w w' hw i k c v hwrite (moduleRules_private D k) j hij
+
+/-- **(iii) a shallow copy would break (ii)**: with `self.__class__(**dict(self.init_dict))` (or no copy) the
+    recorded lists are the parent's; mutating the clone's `hidden_size` in place rewrites the parent's recorded
+    architecture.  (`D = 2`; part 1 = the depth-0 containers.) -/
+theorem C01_modclone_shallow_witness :
+    let w := (World.init (shallowModuleRules 2) [2, 2, 2, 1]).clone 0
+    ∃ w', w.write 1 1 0 77 = some w' ∧ view w' 0 ≠ view w 0 := by
+  decide
+
+/-- the code as found handed the method-name lists over by reference (`clone._layer_mutation_methods =
+    self._layer_mutation_methods`): an in-place extension through the clone (`__setattr__`:
+    `self._layer_mutation_methods += layer_fns`) was seen by the parent; the other parts were already private -/
+theorem C01_modclone_method_lists_witness :
+    let w := (World.init (sharedListsModuleRules 2) [2, 2, 2, 1]).clone 0
+    (∃ w', w.write 1 3 0 77 = some w' ∧ view w' 0 ≠ view w 0) ∧
+    (∀ k, k ≤ 2 → ∀ w', w.write 1 k 0 77 = some w' → view w' 0 = view w 0) := by
+  decide
+
+/-- **The two levels composed**: the agent-level table generated from `EvolvableAlgorithm.clone` with every network
+    attribute replaced by the parts of its module under the table generated from `EvolvableModule.clone` — no
+    assumption about `module.clone()` left — is the model's table, group by group. -/
+theorem C01_source_translation_modclone_composed_table (D : Nat) (specs : List (AttrSpec × Bool × Bool))
+    (hs : HooksSpareCtorArgs specs) :
+    refinedRules D specs = some ((specs.map (refinedModel D)).flatten) :=
+  refinedRules_eq D specs hs
+
+/-- **Ownership for the composed table**: after any history, a cell reached through a group whose composed rule is
+    not by-reference (every parameter tensor and recorded-argument container of a network; optimizers, lists,
+    registry …) belongs to exactly one agent. -/
+theorem C01_source_translation_modclone_composed_separation (D : Nat) (specs : List (AttrSpec × Bool × Bool))
+    (rules : List Rule) (hs : HooksSpareCtorArgs specs) (hg : refinedRules D specs = some rules)
+    (w : World) (hw : Reachable rules w)
+    (i j : Nat) (ai aj : Agent) (k l : Nat) (ck cl : List Nat) (a : Nat)
+    (hi : w.agents[i]? = some (some ai)) (hj : w.agents[j]? = some (some aj))
+    (hk : ai[k]? = some ck) (hl : aj[l]? = some cl) (hak : a ∈ ck) (hal : a ∈ cl)
+    (hpriv : ((specs.map (refinedModel D)).flatten)[k]? ≠ some Rule.byRef) : i = j := by
+  rw [refinedRules_eq D specs hs] at hg
+  cases hg
+  exact C01_separation_invariant _ w hw i j ai aj k l ck cl a hi hj hk hl hak hal hpriv
+
+/-- **Frame for the composed table** -/
+theorem C01_source_translation_modclone_composed_frame (D : Nat) (specs : List (AttrSpec × Bool × Bool))
+    (rules : List Rule) (hs : HooksSpareCtorArgs specs) (hg : refinedRules D specs = some rules)
+    (w w' : World) (hw : Reachable rules w) (i k c v : Nat)
+    (hwrite : w.write i k c v = some w')
+    (hpriv : ((specs.map (refinedModel D)).flatten)[k]? ≠ some Rule.byRef)
+    (j : Nat) (hij : j ≠ i) : view w' j = view w j := by
+  rw [refinedRules_eq D specs hs] at hg
+  cases hg
+  exact C01_frame _ w w' hw i k c v hwrite hpriv j hij
+
+/-- `EvolvableDistribution.clone` by the source: the wrapped network goes through `clone()` (fresh parameters),
+    the plain constructor arguments (action space, numbers, device) are handed over as they are, values are kept -/
+theorem C01_source_translation_modclone_distribution (p : ModPart) :
+    (ModCloneGen.distPartRule (partOf p)).bind (fun x => modShareRule x.1) = some (distCloneRule p) ∧
+    (ModCloneGen.distPartRule (partOf p)).map (fun x => x.2) = some true :=
+  ⟨gen_distCloneRule_eq p, gen_distCloneFaithful_eq p⟩
+
+/-! non-vacuity: the generated module table for depth 2, a reachable history under it (clone, clone of the clone,
+    in-place mutation of the recorded lists), and the composed table of a DQN-like agent -/
+example : genModuleRules 2 = some [Rule.fresh, Rule.fresh, Rule.fresh, Rule.fresh] := by decide
+example :
+    let w := (World.init (moduleRules 2) [2, 2, 2, 1]).run [Op.clone 0, Op.clone 1, Op.write 1 1 0 50, Op.write 2 2 1 60]
+    Reachable (moduleRules 2) w ∧
+    view w 0 = some [[1, 2], [3, 4], [5, 6], [7]] ∧ view w 1 = some [[1, 2], [50, 4], [5, 6], [7]] ∧
+    view w 2 = some [[1, 2], [3, 4], [5, 60], [7]] := ⟨⟨_, _, rfl⟩, by decide⟩
+example : refinedRules 1 [(⟨Kind.network, false⟩, false, false), (⟨Kind.optimizer, false⟩, false, true),
+    (⟨Kind.other, true⟩, false, true)] = some [Rule.fresh, Rule.fresh, Rule.fresh, Rule.fresh, Rule.byRef] := by decide
 
 end Heap
